@@ -207,6 +207,28 @@ pub fn run_case(prop: &str, tapes: &mut Tapes) -> Result<CaseResult, HarnessErro
         }};
     }
 
+    macro_rules! run_basic {
+        () => {{
+            let chunk = match sched.draw(3) {
+                0 => 0,
+                1 => 3,
+                _ => 16,
+            };
+            let e = crate::basic::exec_basic(&w, chunk, sched, model.event_cap());
+            sched = e.sched.clone();
+            if let Ending::HarnessBug(m) = &e.ending {
+                return Err(HarnessError(format!("harness self-check (basic adapter): {m}")));
+            }
+            cx.stats.execs += 1;
+            cx.stats.events += e.events;
+            if e.chunked > 0 {
+                cx.stats.probes.insert("basic_adapter_read_ahead".into());
+            }
+            cx.stats.probes.insert("basic_adapter_flavour_run".into());
+            e
+        }};
+    }
+
     let args_rejected = |e: &ExecOutcome| matches!(e.ending, Ending::ArgsRejected(_));
 
     match prop {
@@ -217,6 +239,18 @@ pub fn run_case(prop: &str, tapes: &mut Tapes) -> Result<CaseResult, HarnessErro
             } else {
                 let cfg1 = SchedCfg::draw(&mut sched, true);
                 let e1 = run!(ExecOpts::new(cfg1));
+                // Third execution: the same data source behind the repository's BasicAdapter
+                // blanket impl and helper functions.
+                let eb = run_basic!();
+                if matches!(eb.ending, Ending::Completed) && model.undefined.is_none() {
+                    if let Some(d) = rows_differ(&eb.rows, &model.rows, model.nonforest) {
+                        cx.push(
+                            "rows-differ-from-reference-model",
+                            format!("[basic-adapter] engine vs model: {d}"),
+                            "basic-adapter",
+                        );
+                    }
+                }
                 for (name, e) in [("S0", &e0), ("random+hints", &e1)] {
                     if !completed(e) {
                         cx.stats.inconclusive.push(format!("{name}: {:?}", ending_name(e)));
@@ -278,6 +312,31 @@ pub fn run_case(prop: &str, tapes: &mut Tapes) -> Result<CaseResult, HarnessErro
                         ),
                         _ => {}
                     }
+                }
+                // BasicAdapter flavour (blanket impl + helpers), chunked read-ahead on its inputs.
+                let eb = run_basic!();
+                match &eb.ending {
+                    Ending::Completed => {
+                        if let Some(d) = seq_differs(&e0.rows, &eb.rows) {
+                            cx.push(
+                                "row-sequence-differs-from-lazy-baseline",
+                                format!("[basic-adapter] S0 vs BasicAdapter flavour: {d}"),
+                                "basic-seq",
+                            );
+                        }
+                    }
+                    Ending::Panic(info) => cx.violations.push(Violation {
+                        property: prop.to_string(),
+                        class: "panic-only-under-read-ahead".into(),
+                        detail: format!(
+                            "[basic-adapter] S0 completes with {} rows; through BasicAdapter the engine panicked at {}: {}",
+                            e0.rows.len(),
+                            info.location,
+                            first_line(&info.message)
+                        ),
+                        fingerprint: info.fingerprint(),
+                    }),
+                    _ => {}
                 }
                 // F7: several live result iterators on one adapter.
                 let cfg = if sched.draw(2) == 1 { SchedCfg::draw(&mut sched, false) } else { SchedCfg::lazy() };
@@ -493,6 +552,38 @@ pub fn run_case(prop: &str, tapes: &mut Tapes) -> Result<CaseResult, HarnessErro
                             }
                         }
                         _ => cx.monitor(e, name),
+                    }
+                }
+                if prop != "C05" {
+                    let eb = run_basic!();
+                    match prop {
+                        "C09" => {
+                            if let Ending::Panic(info) = &eb.ending {
+                                cx.violations.push(Violation {
+                                    property: prop.to_string(),
+                                    class: "engine-panic".into(),
+                                    detail: format!("[basic-adapter] panicked at {}: {}", info.location, first_line(&info.message)),
+                                    fingerprint: info.fingerprint(),
+                                });
+                            }
+                        }
+                        "C13" => {
+                            if let Some((class, detail)) = check_rows_c13(&w, &eb.raw_rows) {
+                                cx.push(&class, format!("[basic-adapter] {detail}"), "c13");
+                            }
+                        }
+                        "C21" => {
+                            for v in &eb.violations {
+                                let fingerprint = format!("{}|features={}", v.class, feature_sig(&w));
+                                cx.violations.push(Violation {
+                                    property: prop.to_string(),
+                                    class: v.class.clone(),
+                                    detail: format!("[basic-adapter] {}", v.detail),
+                                    fingerprint,
+                                });
+                            }
+                        }
+                        _ => {}
                     }
                 }
                 if prop == "C09" {
